@@ -143,4 +143,18 @@ PROPS = {
         'level_text': 'Lean theorems (25, no sorry; axioms propext, Classical.choice, Quot.sound): entry messages and the entry area of a block round-trip for every restart policy; prefix compression is inverted; the builder accepts exactly in-limit, strictly ordered input, a refused attempt appends nothing, accepted entries are sorted; restart offsets are the prefix-sum offsets of the entries the restart indices name; Block::new on sealed bytes + forward decode + offset->index translation returns exactly the entries and restart indices (sealed_bytes_decode), hence a block end to end at the byte level: every finite cursor program over keys equals the reference cursor, seek(k) = first entry with key >= k (sealed_block_cursor_refines), Block::load = newest version <= ts or tombstone; divide_keys lies in [lhs, rhs), minimal_successor_key is a strict successor, the index keys of ANY cut of a sorted list are separating (DivOk) for every target; SstCursor refines the reference cursor; SstBuilder start to seal: blocks and index as written decode to a cut of the accepted entries with separating dividers, cursor programs and Sst::load equal the reference (sst_builder_refines_partial); metadata: first/last key, smallest/biggest timestamp, filter count and file size are exact. The models are tied to the code by byte-exact comparison of block bytes, of a table\'s data/index/final blocks and packed metadata, and of cursor/load observations on seeded adversarial sequences (many versions of a key, last-byte neighbours, prefix chains, empty key, keys/values at the limits, tombstone runs, restart intervals and block sizes down to one entry per block), plus a vector-reference oracle on the implementation alone; limits, field numbers and wire types are regenerated from the source each run.',
         'level_note': 'Trusted: Lean kernel; axioms propext, Classical.choice, Quot.sound; bloom filter bytes and SHA3 as parameters (cross-checked by the harness); correspondence is agreement on generated cases only. Not a theorem: Sst::load_block (file offsets + CRC) = the block list, final block / SstMetadata bytes. Restart interval 0 excluded (outside the property). Requires the repairs d7 (empty block cursor) and multi-builder sort order; d23 (Block::new checked_sub) belongs to C09.',
     },
+    'C19': {
+        'trusted': ['SA-IS (scrunch/src/sais.rs) is not modelled: that it returns the sorted permutation of the suffixes is the hypothesis of the index theorems, decided on every generated text (the suffix array of the built document is read back from its serialised form and checked by the Lean driver with the model order, and by the harness)',
+                    'the RRR / cf-RRR / sparse bit-vector encodings, the wavelet-tree psi, the Huffman wavelet tree and the sampled SA/ISA arrays are tied to the List Bool / psi / str models by comparison on generated inputs only'],
+        'assumptions': ['the empty text and empty records are rejected with an error by check_record_boundaries in both documents (mirrored by the model, checked as agreement of the two constructors)',
+                        'lookup of offsets beyond the text and retrieve/offset_of of records beyond the last are outside the property (observed: both documents answer, differently; the model mirrors the compressed document)',
+                        'cf_rrr::BitVector::rank(len) for len a positive multiple of 1449 returned None before fixes/scrunch-cf-rrr-rank-at-len.diff; the model is the trait semantics, i.e. the repaired code'],
+        'partial': ['sorted_of_suffixes is a hypothesis, not a theorem about sais.rs: SA-IS is tied by correspondence only (decided per input: the suffix array of the built document is read back and checked sorted by the Lean driver and by the harness)',
+                    'bit-vector theorems are about the trait reference semantics and the default select/rank0/select0 on List Bool: the RRR, cf-RRR and sparse encodings (and their own select/select0) are tied by correspondence only',
+                    'constrain_spec / backwardSearch_spec / count_* / search_* are about the reference psi (two binary searches over the psi slice): the wavelet-tree psi (lower_bound/upper_bound over contexts, Huffman wavelet tree) is tied by correspondence only',
+                    'sa_psi / doc_retrieve_record use the exact suffix array and inverse (saOf, isa) of the model: the sampled SA / ISA containers (stride 2^6, psi-walk to the next sample, sparse presence vector) are tied by correspondence only',
+                    'the alphabet translation (Sigma: code point -> dense symbol, order preserving) is modelled as a shift by one; Sigma itself and the serialisation format are tied by correspondence only'],
+        'level_text': 'Partial. Lean theorems, all about executable models: binary search (partition_by) returns the partition point; the BitVector trait default select/select0 return the least position of a given rank/rank0 and are defined exactly up to the number of set bits; rank0 counts clear bits; rank(select k) = k. For every text, every strictly increasing arrangement of the suffixes of text+end-marker (the only hypothesis left: it is what SA-IS must deliver) and every needle over occurring or absent symbols: Sigma::sa_range_for + backward search over psi return exactly the block of suffixes prefixed by the needle, count equals the number of occurrences in the original text, search reports exactly the occurrence positions in ascending order, the empty needle counts every position; over the record-boundary bit vector of every admissible division, records = number of boundaries, lookup(offset) = (boundaries <= offset) - 1, offset_of(r) = r-th boundary, and retrieve(r) (select, select, inverse suffix array, one psi step per symbol) returns the text between the r-th boundary and the next. Tied to scrunch by a three-way run on every seed: real CompressedDocument vs ReferenceDocument vs naive scan (oracle) vs the Lean model (len, records, the suffix array and psi read back from the serialised index, count and positions of exhaustive/sampled patterns, offset->record for every offset, offset_of and retrieve of every record, before and after re-parsing), and seven bit-vector implementations vs List Bool vs Vec<bool> at every argument.',
+        'level_note': 'Trusted: Lean kernel; axioms propext, Classical.choice, Quot.sound; SA-IS, the succinct encodings (RRR, cf-RRR, sparse, wavelet tree, Huffman codes, sampled arrays) and the serialisation are covered by the correspondence/oracle run on generated inputs only, not by proof; the suffix order hypothesis is decided per input.',
+    },
 }
